@@ -209,7 +209,7 @@ def run_contract(name, fn, src_root=None, max_paths=200000, time_limit_s=900, ti
         return h
 
     try:
-        runs, stats = explore(one, max_paths=max_paths, time_limit_s=time_limit_s, shard=shard)
+        runs, stats = explore(one, max_paths=max_paths, time_limit_s=time_limit_s, shard=shard, on_path=lambda c_, h_: _finish_path(res, c_, h_, timeout_ms, keep_models, model_hook))
     except Unsupported as e:
         res.error = "unsupported: %s" % e
         res.wall_s = time.time() - t0
@@ -224,7 +224,13 @@ def run_contract(name, fn, src_root=None, max_paths=200000, time_limit_s=900, ti
         return res
     res.paths = stats["paths"]
     res.infeasible = stats["infeasible"]
-    for ctx, h in runs:
+    res.wall_s = time.time() - t0
+    return res
+
+
+def _finish_path(res, ctx, h, timeout_ms, keep_models, model_hook):
+    """obligations of one finished path: discharged at once, then the path is dropped"""
+    if True:
         res.solver_s += ctx.t_solver
         res.lines |= h.I.lines_reached
         if ctx.unknown_feasibility:
@@ -281,8 +287,6 @@ def run_contract(name, fn, src_root=None, max_paths=200000, time_limit_s=900, ti
             if meta:
                 rec["meta"] = {k: str(v) for k, v in meta.items()}
             res.obligations.append(rec)
-    res.wall_s = time.time() - t0
-    return res
 
 
 def obligation_id(contract, rec):
